@@ -246,9 +246,9 @@ def _ints(x, what):
     return r.astype(int)
 
 
-def mesh_event(kind, p, t, S):
+def mesh_event(kind, p, t, S, big=0):
     return {'a': 'Mesh', 'kind': kind, 'err': '', 'p': [[int(x) * S for x in col] for col in np.asarray(p).T],
-            't': ids(np.asarray(t))}
+            't': ids(np.asarray(t)), 'big': int(big)}
 
 
 def _find(m, X):
@@ -278,6 +278,100 @@ def exec_find(rec):
                 out = [int(k) + 1 for k in r]
         events.append({'a': 'Find', 'pts': [list(map(int, q)) for q in call], 'res': out, 'err': err,
                        'model': int(rec.get('model', 0))})
+    return events
+
+
+# ---- strongly graded meshes with several hundred cells: one big block next to many thin layers.  For points of
+# the big cells near the layers, hundreds of centroids are closer than the centroid of the containing cell.
+SPLIT = {'quad': [[0, 1, 3], [1, 2, 3]],
+         'hex': [[0, 1, 3, 4], [0, 3, 2, 4], [2, 3, 4, 6], [3, 4, 6, 7], [3, 4, 5, 7], [1, 3, 4, 5]],
+         'wedge': [[0, 1, 2, 3], [1, 2, 3, 4], [2, 3, 4, 5]]}
+
+
+def big_mesh(kind, nslab):
+    B = 1024 if kind in ('tri', 'quad') else 256
+    xs = [0, B] + [B + j for j in range(1, nslab + 1)]
+    if kind == 'tri':
+        return B, G.tensor_tri(xs, [0, B])
+    if kind == 'quad':
+        return B, G.tensor_quad(xs, [0, B])
+    if kind == 'tet':
+        return B, G.tensor_tet(xs, [0, B], [0, B])
+    if kind == 'hex':
+        return B, G.tensor_hex(xs, [0, B], [0, B])
+    return B, G.tensor_wedge(xs, [0, B], [0, B])
+
+
+def _containing(p, st, x):
+    """Indices of the simplices st (vertex ids, (dim+1) x ns) whose closed hull contains x (input selection)."""
+    V = p[:, st]
+    A = np.concatenate([V, np.ones((1,) + V.shape[1:])], axis=0).transpose(2, 0, 1)
+    rhs = np.concatenate([x, [1.]])[None, :, None].repeat(A.shape[0], 0)
+    lam = np.linalg.solve(A, rhs)[:, :, 0]
+    return np.nonzero((lam >= -1e-12).all(axis=1))[0]
+
+
+def big_recipe(kind, nslab, rng, fam, ncalls=6):
+    """Find calls on a big graded mesh.  Every point comes with a witness cell (hint) that TLC verifies exactly;
+    'deep' points are chosen (input selection) such that >= 100 centroids of the simplices the finder searches
+    are closer than the centroid of any containing simplex."""
+    B, (p, t) = big_mesh(kind, nslab)
+    p, t = np.asarray(p, dtype=float), np.asarray(t)
+    nt = t.shape[1]
+    st = np.hstack([t[sp] for sp in SPLIT[kind]]) if kind in SPLIT else t
+    C = p[:, st].mean(axis=1).T
+    dim = p.shape[0]
+    deep, mid = [], []
+    for _ in range(400):
+        x = np.array([rng.integers(B - 4, B)] + [rng.integers(1, B) for _ in range(dim - 1)], dtype=float)
+        cont = _containing(p, st, x)
+        if len(cont) == 0:
+            continue
+        d = np.linalg.norm(C - x, axis=1)
+        r = min(int((d < d[c]).sum()) for c in cont)
+        q = ([int(v) for v in x], int(cont[0] % nt) + 1)
+        (deep if r >= 100 else mid).append(q)
+        if len(deep) >= 3 * ncalls:
+            break
+    thin = []
+    for _ in range(6):
+        x = np.array([B + int(rng.integers(1, nslab))] + [rng.integers(1, B) for _ in range(dim - 1)], dtype=float)
+        cont = _containing(p, st, x)
+        if len(cont):
+            thin.append(([int(v) for v in x], int(cont[0] % nt) + 1))
+    far = ([int(3 * B + nslab)] + [int(B // 2)] * (dim - 1), 0)
+    calls = [{'pts': [q[0]], 'hint': [q[1]], 'rank': 1} for q in deep[:ncalls]]
+    calls.append({'pts': [q[0] for q in deep[ncalls:ncalls + 3]], 'hint': [q[1] for q in deep[ncalls:ncalls + 3]], 'rank': 1})
+    calls += [{'pts': [q[0]], 'hint': [q[1]], 'rank': 1} for q in thin[:2] + mid[:1]]
+    mix = thin[2:4] + deep[:1]
+    calls.append({'pts': [q[0] for q in mix], 'hint': [q[1] for q in mix], 'rank': 0})
+    calls.append({'pts': [far[0]], 'hint': [0], 'rank': 0})
+    calls.append({'pts': [deep[0][0], far[0]], 'hint': [deep[0][1], 0], 'rank': 0})
+    return {'driver': 'findbig', 'kind': kind, 'family': fam, 'S': 1, 'p': p.astype(int).tolist(), 't': t.astype(int).tolist(),
+            'calls': calls}
+
+
+def exec_findbig(rec):
+    kind = rec['kind']
+    events = []
+    mm, err = guarded(lambda: U.make(kind, rec['p'], rec['t']), 60)
+    ev = mesh_event(kind, rec['p'], rec['t'], 1, big=1)
+    ev['err'] = err
+    events.append(ev)
+    if err:
+        return events
+    for call in rec['calls']:
+        X = np.array(call['pts'], dtype=float).T
+        res, err = guarded(lambda: _find(mm, X), 60)
+        out = []
+        if not err:
+            r = np.asarray(res)
+            if r.ndim != 1 or r.dtype.kind not in 'iu':
+                err = 'BadResultType'
+            else:
+                out = [int(k) + 1 for k in r]
+        events.append({'a': 'FindBig', 'pts': [list(map(int, q)) for q in call['pts']], 'res': out, 'err': err,
+                       'hint': [int(h) for h in call['hint']], 'rank': int(call['rank'])})
     return events
 
 
@@ -423,7 +517,11 @@ def exec_probe(rec):
 
 
 def execute(rec):
-    return exec_find(rec) if rec['driver'] == 'find' else exec_probe(rec)
+    if rec['driver'] == 'find':
+        return exec_find(rec)
+    if rec['driver'] == 'findbig':
+        return exec_findbig(rec)
+    return exec_probe(rec)
 
 
 def scenario(sid, rec):
